@@ -539,6 +539,25 @@ Section GridQc.
     - intros y Hy. rewrite Xdr by assumption.
       exact (main_drift_field_generated QcF ftan fsin fasin O L B nb n mn0 mx0 mn1 mx1 sc0 sc1 y Hy Ha1 Ha2 Hm0 Hm1 Hs He).
   Qed.
+  (** C08: slice b of the nb-bunch RF kick whose table updateSM() built inside the generated _calcKick is the
+      single-bunch kick of that slice with the model's field *)
+  Theorem rf_kick_slice_generated n nb it (A0 A1 : axfacts QcF) (M : rfk_members QcF) (phase ampl : Qc)
+      (st : rfd_state QcF) (D : Z -> Qc) b x y :
+    valid_it it -> (0 < n)%Z -> (0 < nb)%Z -> (0 <= b < nb)%Z -> (0 <= x < n)%Z -> (0 <= y < n)%Z ->
+    let offs := rs_built (gen_calcKick (K:=QcF) ftan fsin fasin nb n n A0 A1 M phase ampl st) in
+    apply_y n nb it (updateSM n it offs) D (didx n b x y) =
+    apply_y n 1 it (updateSM n it (rf_offsets (K:=QcF) n (model_kick QcF ftan fsin A0 A1 M phase ampl)))
+            (fun i => D (b * n * n + i)%Z) (didx n 0 x y).
+  Proof.
+    intros Hv Hn Hnb Hb Hx Hy offs. subst offs.
+    rewrite !apply_y_row by (assumption || lia).
+    destruct (rf_offsets_all_bunches_generated QcF ftan fsin fasin nb n n A0 A1 M phase ampl st st b x Hb Hx) as [E1 [_ E3]].
+    rewrite E3, E1.
+    destruct (rf_offsets_all_bunches QcF n (model_kick QcF ftan fsin A0 A1 M phase ampl) (Z.min 0 (1 - 1)) x Hx) as [E _].
+    rewrite E.
+    apply row_out_ext; [exact Hn|]. intros i Hi. unfold rowY. rewrite !clip_in by lia.
+    f_equal. unfold didx. ring.
+  Qed.
 End GridQc.
 
 (** ** C19: the kick DynamicRFKickMap::apply computes from a modulation record (Model/DynRF.v: [kick_entry]) is the
